@@ -306,6 +306,12 @@ class CustomParser(Parser):
         self.block_elements["FencedCode"] = CustomFencedCode
 
 
+# A bare URL or email address (GFM extended autolink) at the end of the text.
+_bare_autolink_at_end_re = re.compile(
+    r"(?:^|\s)(?:(?:https?://|ftp://|www\.)\S+|[\w.+-]+@[\w-]+(?:\.[\w-]+)+)$"
+)
+
+
 class MarkdownNormalizer(Renderer):
     """
     Render Markdown in normalized form. This is the internal implementation
@@ -762,6 +768,9 @@ class MarkdownNormalizer(Renderer):
                 # A literal backslash right before the break is escaped, or it would be
                 # read together with the backslash of the break as an escaped backslash.
                 return "\\\\\n"
+            if _bare_autolink_at_end_re.search(text):
+                # Directly after a bare URL the backslash would become part of the link.
+                return " \\\n"
         return "\n" if element.soft else "\\\n"
 
     def render_code_span(self, element: inline.CodeSpan) -> str:
@@ -848,7 +857,9 @@ class MarkdownNormalizer(Renderer):
 
     def render_url(self, element: gfm_elements.Url) -> str:
         """For GFM autolink URLs, just output the URL directly."""
-        return self._autolink_text(element)
+        text = self._autolink_text(element)
+        self._current_inline_text += text
+        return text
 
     def render_alert(
         self,
